@@ -136,6 +136,8 @@ package leader
 //@   on call updateIsLeaderMetric set $gaugeFresh = true
 //@   on call kvElection.cancel assert C19+C09.election_ctx_cancelled_only_by_stop_paths: caller.mayCancelElection
 //@   on call kvElection.termCancel assert C19.term_ctx_cancelled_only_when_claim_cleared: caller.mayCancelTerm
+//@   on call kvElection.onDemote assert C08+C09+C11+C13.callbacks_run_outside_the_mutex: nheld(kvElection.mu) == 0
+//@   on call kvElection.onPromote assert C08+C09+C13.callbacks_run_outside_the_mutex: nheld(kvElection.mu) == 0
 //@   on unlock kvElection.mu assert C18.gauge_follows_claim: $gaugeFresh
 //@   on call recordTransition as c assert C18.transition_chain: c.fromState == $stateAtLock && c.toState == $stateStored && held(c.e.mu) == 2
 
@@ -385,6 +387,12 @@ package leader
 //@   on call fn assert C17.breaker_calls_once: calls(fn) == 1
 //@   on ret fn as r set fnErrNil = r.result == nil
 //@   on ret fn set called = true
+//@   ghost clock Int = 0
+//@   ghost clockFresh Bool = false
+//@   on ret time.Now as t set clock = t.result
+//@   on ret time.Now set clockFresh = true
+//@   on ret fn set clockFresh = false
+//@   on store CircuitBreaker.lastFailureTime as s assert C17.failure_stamped_when_it_happened: clockFresh && s.value == clock
 //@   on unlock CircuitBreaker.mu as l assert C17.breaker_failure_counts: called && !fnErrNil ==> l.base.failures == oldFailures + 1 && ((l.base.state == 1) == (l.base.failures >= cb.failureThreshold) || (l.base.state == 2 && l.base.failures < cb.failureThreshold))
 //@   on unlock CircuitBreaker.mu as l assert C17.breaker_success_closes: called && fnErrNil ==> l.base.failures == 0 && l.base.state == 0
 //@   on unlock CircuitBreaker.mu as l assert C17.breaker_skip_keeps_state: !called ==> l.base.failures == oldFailures && l.base.state == 1 && openAtEntry
@@ -488,6 +496,10 @@ package leader
 //@   on call onPromote as c assert C19.derived_from_election_ctx: origin(c.arg0, "ctx:derived") && origin(ctxof(c.arg0), "ctx:derived") && origin(ctxof(ctxof(c.arg0)), "field:kvElection.ctx")
 //@   on call ctxcancel assert C19.not_cancelled_early: calls(onPromote) == 1
 //@   on call onPromote assert C08.promote_once_per_activation: calls(onPromote) == 1
+//@   ghost tcFn Int = 0
+//@   on store kvElection.termCancel as s set tcFn = s.value
+//@   on call heartbeatLoop as c assert C07+C12+C03.loops_bound_to_the_term: tcFn != nil && CancelTarget(tcFn) == c.ctx
+//@   on call validationLoop as c assert C07+C04.loops_bound_to_the_term: tcFn != nil && CancelTarget(tcFn) == c.ctx
 //@   ghost claimed Bool = false
 //@   ghost stateL Int = 0
 //@   ghost ctxNilL Bool = false
@@ -795,14 +807,15 @@ package leader
 //@   ghost demote_cause Bool = false
 //@   ghost cleared Bool = false
 //@   ghost demoteSet Bool = false
-//@   ghost sameRun Bool = false
-//@   ghost run Int = ctx
-//@   on load kvElection.ctx as l set sameRun = l.value == run
-//@   on call becomeFollower set demote_cause = cancelled(run) && sameRun
+//@   ghost runDead Bool = false
+//@   ghost runSeen Int = 0
+//@   on load kvElection.ctx as l set runSeen = l.value
+//@   on ret Context.Err as r when r.ctx == runSeen set runDead = r.result != nil
+//@   on call becomeFollower set demote_cause = runDead
 //@   on ret becomeFollower as r set cleared = r.result
 //@   on load kvElection.onDemote as l set demoteSet = l.value != nil
-//@   ensures C03+C02.cancelled_run_ends_its_term: sameRun ==> calls(becomeFollower) == 1
-//@   ensures C07.later_run_left_alone: !sameRun ==> calls(becomeFollower) == 0 && calls(onDemote) == 0
+//@   ensures C03+C02.cancelled_run_ends_its_term: runDead ==> calls(becomeFollower) == 1
+//@   ensures C07.live_run_left_alone: !runDead ==> calls(becomeFollower) == 0 && calls(onDemote) == 0
 //@   ensures C08.demote_iff_claim_cleared: calls(onDemote) == ((cleared && demoteSet) ? 1 : 0)
 
 //@ func (e *kvElection) handleHealthCheckFailure()
